@@ -179,10 +179,17 @@ Definition quantile (counts : list (Z * nat)) (c : nat) : Q :=
   if Nat.ltb 0 c then rank_avg (pos_counts counts) c / Qofnat (length (pos_counts counts)) else 0.
 Definition pop_item_ranks (counts : list (Z * nat)) : gseries :=
   map (fun e => (fst e, quantile counts (snd e))) counts.
+(* q_i: quantile of item i's count; 0 for items without interactions or outside the data *)
+Fixpoint count_of (counts : list (Z * nat)) (i : Z) : nat :=
+  match counts with
+  | [] => 0%nat
+  | e :: c' => if Z.eqb i (fst e) then snd e else count_of c' i
+  end.
+Definition item_quantile (counts : list (Z * nat)) (i : Z) : Q := quantile counts (count_of counts i).
 Definition pop_model (counts : list (Z * nat)) (k : option nat) (recs : ilist) (t : tlist) : exc res :=
   with_topk k recs (fun L =>
     if Nat.eqb (length L) 0 then Ret RNone
-    else Ret (arr_mean (ser_reindex (pop_item_ranks counts) L 0))).
+    else Ret (arr_mean (map (item_quantile counts) L))).
 
 (* results agree up to equality of rationals *)
 Definition exc_eq (a b : exc res) : Prop :=
